@@ -2,6 +2,7 @@
 //! writes one result line per command on stdout (prefixed by the command tag).
 mod alias;
 mod rng;
+mod samp;
 mod tree;
 mod wt;
 
@@ -44,6 +45,7 @@ fn main() {
         let r = match toks[0] {
             "tree" => tree_line(&toks),
             "alias" => alias_line(&toks),
+            "samp" => samp::line(&toks),
             "ping" => "pong".to_string(),
             other => format!("unknown:{}", other),
         };
